@@ -431,6 +431,13 @@ def fixed_runs():
         # priority 3 pushes against priority 1
         goals.append({"path": True, "fn": "ny" if first[0] == "y" else "y", "prio": 3, "order": 1, "weight": 1, "nominal": 1})
         out.append({"k": "run", "times": [0, 1, 2], "E": 1, "p": [0], "variant": "multi", "aliases": [["y", "-ny"]], "options": {}, "goals": goals})
+    # (c) a later priority that cannot be solved (critical goal beyond the bounds): the final result is the one
+    # of the last completed priority
+    for variant in ("multi", "multi_keep_soft"):
+        out.append({"k": "run", "times": [0, 1, 2], "E": 1, "p": [0], "variant": variant, "options": {}, "expect_failure": True,
+                    "goals": [{"path": True, "fn": "y", "prio": 1, "order": 2, "weight": 1, "nominal": 1, "tmin": 1.0},
+                              {"path": True, "fn": "z", "prio": 2, "order": 1, "weight": 1, "nominal": 1},
+                              {"path": True, "fn": "z", "prio": 3, "critical": True, "tmin": 25.0}]})
     return out
 
 
@@ -528,7 +535,11 @@ def run_case(c):
         ok = p.optimize()
     except Exception as e:  # validation errors etc. are not this property's business
         return {"error": "%s: %s" % (type(e).__name__, str(e)[:200])}
-    return {"ok": ok, "snaps": snaps}
+    try:
+        final = [dict((k, np.array(v, dtype=float)) for k, v in p.extract_results(m).items()) for m in range(p.ensemble_size)]
+    except Exception:  # noqa: BLE001
+        final = None
+    return {"ok": ok, "snaps": snaps, "final": final}
 
 
 def priority_objective(c, prio_index, prio, res_all):
@@ -784,6 +795,18 @@ def run(ctx):
         shared = len({g.get("fk") for g in c["goals"] if g.get("fk")}) > 0
         ctx.case_done(core.fingerprint(["run", c["variant"], c["E"], len(c["times"]),
                                         [[g["prio"], g["fn"], g["path"], g.get("critical", False), g.get("tmin") is not None, g.get("tmax") is not None] for g in c["goals"]]]), shared)
+        if out.get("final") is not None and out["snaps"]:
+            # what is exposed after the run is the solution of the last completed priority
+            last = out["snaps"][-1]["results"]
+            diff = [(m, k) for m in range(c["E"]) for k in ("y", "z") if not np.allclose(out["final"][m][k], last[m][k], rtol=1e-9, atol=1e-9)]
+            if diff:
+                m, k = diff[0]
+                ctx.violation("run/final-result", {"case": c, "returned": bool(out["ok"]), "member": m, "variable": k,
+                                                   "final": out["final"][m][k].tolist(), "last_completed_priority": last[m][k].tolist()},
+                              what="after optimize() returned %s the exposed %s is %s, the last completed priority (%s) gave %s" % (
+                                  out["ok"], k, out["final"][m][k].tolist(), out["snaps"][-1]["priority"], last[m][k].tolist()))
+        if c.get("expect_failure") and (out["ok"] or len(out["snaps"]) != 2):
+            ctx.count("expected_failure_did_not_fail")
         if not out["ok"]:
             ctx.count("run_failed_solve")
             continue
